@@ -875,9 +875,15 @@ func makeTask(s spec, w *world, rec *Rec) func() {
 				xs := make([]int, n)
 				for i := range xs {
 					xs[i] = int(r.Next() % 50)
+					if n > 60 {
+						xs[i] = int(r.Next() % 1000003)
+					}
 				}
-				if rep == 2 && n >= 40 {
+				if rep == 2 && n >= 40 && n <= 60 {
 					xs = gutil.QuicksortKiller(n * 8) // reaches the heapsort fallback
+				}
+				if n > 60 && rep > 0 {
+					break // one large slice per task is enough
 				}
 				ints.Sort(xs)
 				rec.ints("sorted", xs)
@@ -1244,6 +1250,10 @@ func drawSpec(r *driver.Run, k int, thorough bool) spec {
 		s.p = [6]int{t.Draw(4), t.Draw(3)}
 	case kSort:
 		s.p = [6]int{t.Draw(1000), t.Range(0, 60)}
+		if t.Chance(1, 8) {
+			// slices large enough for whatever a library does differently "from a certain size on"
+			s.p[1] = []int{1100, 4200, 8300, 17000}[t.Draw(4)]
+		}
 	case kGenerators:
 		s.p = [6]int{t.Draw(1000), t.Range(1, 5)}
 	case kEditor:
@@ -1555,7 +1565,24 @@ func runOne(r *driver.Run) {
 	pans, stats := sched.Run(cfg, tasks)
 	reports := newRaceReports()
 	after := snapshot(w)
-	if concFirst && !stats.Stuck && !soloElsewhere {
+	// after a deadlocked or runaway concurrent pass the tasks were unwound wherever they stood:
+	// the process is not in a state in which the solo passes mean anything (a semaphore slot the
+	// tree took is never given back), and the verdict does not need them
+	if concFirst && (stats.Deadlock || stats.Over) && !soloElsewhere {
+		// the verdict needs to know that every task terminates within the solo budget when run
+		// alone (otherwise the scenario is simply too expensive): ask a fresh process
+		h, n, pn, ok := soloInFreshProcess(r)
+		if !ok {
+			r.Count("skipped_scenario_too_expensive", 1)
+			r.Logf("concurrent pass over budget or deadlocked, and the solo passes in a fresh process do not fit the solo budget: scenario skipped")
+			return
+		}
+		for i := range expected {
+			expected[i].h, expected[i].n, expPanic[i] = h[i], n[i], pn[i]
+		}
+		soloElsewhere = true
+	}
+	if concFirst && !stats.Stuck && !stats.Deadlock && !stats.Over && !soloElsewhere {
 		if !soloPasses() {
 			return
 		}
